@@ -77,7 +77,12 @@ def one(src):
                       "demo.py on patched worktree (expect != 0)",
                       "pytest pinned suite on patched worktree vs BASELINE stable_pass"]
         if ok:
-            dst = VERIF / "seeded" / (name if not os.environ.get("SEEDED_SUFFIX_MAP") else f"{pid}-" + {"a": "c", "b": "d"}.get(x, x))
+            sfx = os.environ.get("SEEDED_SUFFIXES")   # e.g. "c,d" for round 2
+            if sfx:
+                m_ = dict(zip(("a", "b"), sfx.split(",")))
+                dst = VERIF / "seeded" / f"{pid}-{m_.get(x, x)}"
+            else:
+                dst = VERIF / "seeded" / name
             dst.mkdir(parents=True, exist_ok=True)
             shutil.copy2(src / "patch.diff", dst / "patch.diff")
             shutil.copy2(src / "demo.py", dst / "demo.py")
